@@ -18,3 +18,4 @@ mod c13;
 mod c14;
 mod c15;
 mod c18;
+mod c06;
